@@ -195,7 +195,14 @@ pub fn check(t: &Trace<'_>, out: &mut CaseOut) -> bool {
                 if matches!(op.outcome, Outcome::Err(ErrRepr::BufferTooSmall | ErrRepr::PacketTooLarge | ErrRepr::InvalidRequest | ErrRepr::InflightExhausted)) {
                     out.count("refused_requests", 1);
                     out.key(format!("refused/{}/{:?}", op.kind, op.outcome));
-                    if during.iter().any(|p| matches!(p.pkt, CPacket::Subscribe { .. } | CPacket::Unsubscribe { .. }) && p.b0 & 8 == 0) {
+                    // (an earlier, still unsent request may legitimately be flushed by this call:
+                    // only packets carrying exactly this request's filters count)
+                    let same = |p: &&crate::refcodec::CRec| match (&p.pkt, &t.log.steps[op.step]) {
+                        (CPacket::Subscribe { filters, .. }, Step::Subscribe(sp)) => filters.iter().map(|f| &f.0).eq(sp.filters.iter().map(|f| &f.filter)) && m.msgs.iter().all(|x| !x.txs.iter().any(|tx| tx.conn == conn && w.conns[conn].out.packets[tx.idx].start == p.start)),
+                        (CPacket::Unsubscribe { filters, .. }, Step::Unsubscribe(sp)) => *filters == sp.filters && m.msgs.iter().all(|x| !x.txs.iter().any(|tx| tx.conn == conn && w.conns[conn].out.packets[tx.idx].start == p.start)),
+                        _ => false,
+                    };
+                    if during.iter().any(|p| same(p) && p.b0 & 8 == 0) {
                         out.violations.push(viol("C09", format!("C09/refused-but-sent/{}", op.kind), format!("op#{} returned {:?} but a new SUBSCRIBE/UNSUBSCRIBE went out during the call", i, op.outcome)));
                     }
                 }
